@@ -708,6 +708,19 @@ fn gen_plain_ops(ch: &mut Choices, cfg: &Cfg, n: usize) -> Vec<EOp> {
                 10 => MOp::Reg(ch.below(32) as u8),
                 11 => MOp::Piece(ch.pick(&[1u64, 4, 8, 200])),
                 12 => MOp::StackValue,
+                13 if ch.chance(190) => {
+                    // every operation without an operand, and the remaining operand kinds: a converter handles each
+                    // of them in its own arm
+                    const SIMPLE: [MOp; 37] = [
+                        MOp::Drop, MOp::Over, MOp::Swap, MOp::Rot, MOp::Abs, MOp::And, MOp::Div, MOp::Minus, MOp::Mod, MOp::Mul, MOp::Neg, MOp::Not, MOp::Or, MOp::Shl, MOp::Shr, MOp::Shra, MOp::Xor, MOp::Eq, MOp::Ge, MOp::Gt, MOp::Le, MOp::Lt, MOp::Ne,
+                        MOp::Nop, MOp::PushObjectAddress, MOp::CallFrameCfa, MOp::Tls(false), MOp::XDeref, MOp::Deref, MOp::Uninit, MOp::Pick(0), MOp::Pick(1), MOp::Pick(7), MOp::DerefSize(4), MOp::XDerefSize(2), MOp::Regx(40), MOp::BitPiece(12, 3),
+                    ];
+                    match ch.below(6) {
+                        0 => MOp::ImplicitValue(ch.bytes(3)),
+                        1 => MOp::Wasm(ch.below(3) as u8, ch.u32()),
+                        _ => SIMPLE[ch.below(SIMPLE.len())].clone(),
+                    }
+                }
                 _ => {
                     if cfg.version >= 5 && ch.bool() {
                         MOp::Addrx(ch.below(3) as u64, false)
